@@ -17,13 +17,14 @@ CONSTANTS
   IdxSlack,              \* indexed frame() may target 0 .. Len(frm)+IdxSlack-1
   UserParams,            \* sequence of [g, p] records: the SetParam alphabet (besides the two rates)
   LockNames,             \* group names lockGroup/unlockGroup are tried with
+  Lookups,               \* TRUE: the read-only look-ups of C11 are explored in every state
   CallerIds,             \* identities of caller-side frame objects (C08); {} switches them off
   Phased                 \* TRUE: declarations and rates only before any frame exists, frames only once points, channels and
                          \* both rates are declared (keeps the frame-centred slices small); FALSE: free interleaving
 
-VARIABLES obj, callers, hist, lastOp, lastOut, lastSets,
+VARIABLES obj, callers, hist, lastOp, lastOut, lastSets, lastRes,
           inScope        \* C05's per-frame clauses apply (FALSE once a column was added over an empty gap frame, DESIGN appendix A.10)
-vars == <<obj, callers, hist, lastOp, lastOut, lastSets, inScope>>
+vars == <<obj, callers, hist, lastOp, lastOut, lastSets, lastRes, inScope>>
 View == <<obj, callers, inScope>>
 
 (* ---------- payloads ---------- *)
@@ -48,6 +49,12 @@ NF == Len(obj.frm)
 DeclSubs == IF AUsed > 0 THEN obj.hdr.perframe ELSE 0
 ButLast(s) == SubSeq(s, 1, Len(s) - 1)
 
+\* The caller may name points / channels with trailing spaces; a Frame object holds the trimmed names
+\* (Point::name / Channel::name and the naming constructors). NormFrame is the object the library sees.
+PadNames(f) == [p |-> [i \in 1..Len(f.p) |-> [f.p[i] EXCEPT !.n = @ \o <<32>>]],
+                a |-> [s \in 1..Len(f.a) |-> [i \in 1..Len(f.a[s]) |-> [f.a[s][i] EXCEPT !.n = @ \o <<32, 32>>]]]]
+NormFrame(f) == [p |-> [i \in 1..Len(f.p) |-> [f.p[i] EXCEPT !.n = TrimRight(@)]],
+                 a |-> [s \in 1..Len(f.a) |-> [i \in 1..Len(f.a[s]) |-> [f.a[s][i] EXCEPT !.n = TrimRight(@)]]]]
 FrameOfKind(kind, tag) ==
   CASE kind = "conf"   -> MkFrame(PLabels, DeclSubs, ALabels, tag)
     [] kind = "lesspt" -> MkFrame(ButLast(PLabels), DeclSubs, ALabels, tag)
@@ -56,12 +63,15 @@ FrameOfKind(kind, tag) ==
     [] kind = "lessch" -> MkFrame(PLabels, DeclSubs, ButLast(ALabels), tag)
     [] kind = "morech" -> MkFrame(PLabels, DeclSubs, Append(ALabels, YName), tag)
     [] kind = "empty"  -> EmptyFrame
+    [] kind = "padded" -> PadNames(MkFrame(PLabels, DeclSubs, ALabels, tag))                       \* names given with a trailing space (setter)
+    [] kind = "ctorpad"-> PadNames(MkFrame(PLabels, DeclSubs, ALabels, tag)) @@ [ctor |-> 1]     \* same, through the naming constructors
     [] kind = "nopts"  -> MkFrame(<<>>, DeclSubs, ALabels, tag)
     [] kind = "noan"   -> MkFrame(PLabels, 0, <<>>, tag)
 KindApplies(kind) ==
   CASE kind \in {"lesspt", "rename"} -> PUsed >= 1 /\ Len(PLabels) = PUsed
     [] kind = "morept" -> PUsed >= 1
     [] kind \in {"lessch", "morech"} -> AUsed >= 1 /\ DeclSubs >= 1
+    [] kind \in {"padded", "ctorpad"} -> PUsed >= 1
     [] kind = "nopts" -> PUsed >= 1 /\ AUsed >= 1 /\ DeclSubs >= 1
     [] kind = "noan" -> PUsed >= 1 /\ AUsed >= 1 /\ DeclSubs >= 1
     [] OTHER -> TRUE
@@ -87,9 +97,9 @@ Conforming(f) ==
   /\ \A s \in 1..Len(f.a) : Len(f.a[s]) = AUsed
 HasGap == \E i \in 1..Len(obj.frm) : ~Filled(obj.frm[i])
 Done(o, op, out, sets) ==
-  /\ obj' = o /\ lastOp' = op /\ lastOut' = out /\ lastSets' = sets /\ hist' = Append(hist, op)
+  /\ obj' = o /\ lastOp' = op /\ lastOut' = out /\ lastSets' = sets /\ hist' = Append(hist, op) /\ lastRes' = <<>>
   /\ inScope' = (inScope /\ ~(out = "ok" /\ op.op \in {"DeclPoint", "DeclAnalog", "AddPointCols", "AddAnalogCols"} /\ HasGap)
-                          /\ ~(out = "ok" /\ op.op = "AddFrame" /\ ~Conforming(IF "c" \in DOMAIN op THEN callers[op.c] ELSE op.frame)))
+                          /\ ~(out = "ok" /\ op.op = "AddFrame" /\ ~Conforming(IF "c" \in DOMAIN op THEN callers[op.c] ELSE NormFrame(op.frame))))
 
 AddFrameF(f, idx, op) ==
   LET out == FrameOutcome(f) IN
@@ -100,8 +110,8 @@ IdxRange == {-1} \cup 0..(NF + IdxSlack - 1)
 AddFrame(kind, tag, idx) ==
   /\ KindApplies(kind)
   /\ (idx = -1 => NF < MaxFrames) /\ idx < MaxFrames
-  /\ LET f == FrameOfKind(kind, tag) IN
-     AddFrameF(f, idx, [op |-> "AddFrame", idx |-> idx, frame |-> f]) /\ UNCHANGED callers
+  /\ LET arg == FrameOfKind(kind, tag) IN
+     AddFrameF(NormFrame(arg), idx, [op |-> "AddFrame", idx |-> idx, frame |-> arg]) /\ UNCHANGED callers
 
 (* ---------- c3d::point(name) / point(frames) (src/ezc3d.cpp:320-356) ---------- *)
 \* validation of every new column precedes any mutation; the first failing check decides the class
@@ -141,8 +151,8 @@ PointColsArg(kind, tag, nm, nm2) ==
     [] kind = "more"   -> [f \in 1..(NF + 1) |-> one(nm, tag)]
     [] kind = "zero"   -> <<>>
 PointColsApplies(kind, nm, nm2) ==
-  /\ nm \notin SeqToSet(PLabels)
-  /\ IF kind \in {"ok2", "short"} THEN nm2 \notin SeqToSet(PLabels) /\ nm2 # nm ELSE nm2 = nm
+  /\ TrimRight(nm) \notin SeqToSet(PLabels)
+  /\ IF kind \in {"ok2", "short"} THEN TrimRight(nm2) \notin SeqToSet(PLabels) /\ nm2 # nm ELSE nm2 = nm
   /\ CASE kind \in {"dup", "newdup"} -> Len(PLabels) >= 1 /\ NF >= 1
        [] kind = "short" -> NF >= 2
        [] kind = "fewer" -> NF >= 1
@@ -153,7 +163,7 @@ PointColsApplies(kind, nm, nm2) ==
 AddPointCols(kind, tag, nm, nm2) ==
   /\ Len(PLabels) < MaxPts /\ PointColsApplies(kind, nm, nm2)
   /\ LET frames == PointColsArg(kind, tag, nm, nm2) IN
-     AddPointColsF(frames, [op |-> "AddPointCols", frames |-> frames])
+     AddPointColsF([f \in 1..Len(frames) |-> NormFrame(frames[f])], [op |-> "AddPointCols", frames |-> frames])
   /\ UNCHANGED callers
 
 (* ---------- c3d::analog(name) / analog(frames) (src/ezc3d.cpp:358-403) ---------- *)
@@ -199,8 +209,8 @@ AnalogColsArg(kind, tag, nm, nm2) ==
     [] kind = "more"   -> [f \in 1..(NF + 1) |-> one(nm, tag, ns)]
     [] kind = "zero"   -> <<>>
 AnalogColsApplies(kind, nm, nm2) ==
-  /\ nm \notin SeqToSet(ALabels)
-  /\ IF kind \in {"ok2", "short"} THEN nm2 \notin SeqToSet(ALabels) /\ nm2 # nm ELSE nm2 = nm
+  /\ TrimRight(nm) \notin SeqToSet(ALabels)
+  /\ IF kind \in {"ok2", "short"} THEN TrimRight(nm2) \notin SeqToSet(ALabels) /\ nm2 # nm ELSE nm2 = nm
   /\ CASE kind \in {"dup", "newdup"} -> Len(ALabels) >= 1 /\ NF >= 1
        [] kind = "short" -> NF >= 2
        [] kind = "fewer" -> NF >= 1
@@ -211,7 +221,7 @@ AnalogColsApplies(kind, nm, nm2) ==
 AddAnalogCols(kind, tag, nm, nm2) ==
   /\ Len(ALabels) < MaxCh /\ AnalogColsApplies(kind, nm, nm2)
   /\ LET frames == AnalogColsArg(kind, tag, nm, nm2) IN
-     AddAnalogColsF(frames, [op |-> "AddAnalogCols", frames |-> frames])
+     AddAnalogColsF([f \in 1..Len(frames) |-> NormFrame(frames[f])], [op |-> "AddAnalogCols", frames |-> frames])
   /\ UNCHANGED callers
 
 (* ---------- c3d::parameter / lockGroup / unlockGroup (src/ezc3d.cpp:252-280) ---------- *)
@@ -256,10 +266,10 @@ LockGroup(gname, lock) ==
 (* ---------- the caller's own frame objects (C08): value semantics ---------- *)
 CallerNew(k, kind, tag) ==
   /\ KindApplies(kind)
-  /\ LET f == FrameOfKind(kind, tag) IN
+  /\ LET f == NormFrame(FrameOfKind(kind, tag)) IN
      /\ callers' = [callers EXCEPT ![k] = f]
      /\ lastOp' = [op |-> "CallerNew", c |-> k, frame |-> f] /\ hist' = Append(hist, lastOp')
-  /\ lastOut' = "ok" /\ lastSets' = <<>> /\ UNCHANGED <<obj, inScope>>
+  /\ lastOut' = "ok" /\ lastSets' = <<>> /\ lastRes' = <<>> /\ UNCHANGED <<obj, inScope>>
 \* in-place edit through the public non-const accessors: first point's x / first channel's value := tag pattern
 MutFrame(f, tag) ==
   IF Len(f.p) > 0 THEN [f EXCEPT !.p[1].v[1] = <<tag, 7, 7, 66>>]
@@ -275,7 +285,7 @@ CallerMutate(k, tag) ==
   /\ MutFrame(callers[k], tag) # callers[k]
   /\ callers' = [callers EXCEPT ![k] = MutFrame(@, tag)]
   /\ lastOp' = [op |-> "CallerMutate", c |-> k] @@ MutOp(callers[k], tag) /\ hist' = Append(hist, lastOp')
-  /\ lastOut' = "ok" /\ lastSets' = <<>> /\ UNCHANGED <<obj, inScope>>
+  /\ lastOut' = "ok" /\ lastSets' = <<>> /\ lastRes' = <<>> /\ UNCHANGED <<obj, inScope>>
 AddCallerFrame(k, idx) ==
   /\ (idx = -1 => NF < MaxFrames) /\ idx < MaxFrames
   /\ AddFrameF(callers[k], idx, [op |-> "AddFrame", idx |-> idx, c |-> k]) /\ UNCHANGED callers
@@ -286,11 +296,83 @@ EditStored(fi, tag) ==
   /\ Done([obj EXCEPT !.frm[fi] = MutFrame(@, tag)], [op |-> "EditStored", f |-> fi - 1] @@ MutOp(obj.frm[fi], tag), "ok", <<>>)
   /\ UNCHANGED callers
 
+
+(* ---------- read-only look-ups (C11): element at the position / first element of exactly that name ---------- *)
+\* positions: -1 stands for 2^64-1 and -2 for 2^32 (TLC integers are 32 bit; the harness maps the tokens)
+Idxs(n) == 0..(n + 1) \cup {-1, -2}
+In(i, n) == i >= 0 /\ i < n
+OOR == [out |-> "out_of_range", res |-> <<>>]
+INV == [out |-> "invalid_argument", res |-> <<>>]
+Ok(r) == [out |-> "ok", res |-> r]
+NameIdx(names, nm) == IndexOfFirst(names, LAMBDA x : x = nm)
+GetResult(o, q) ==
+  LET F == o.frm IN
+  CASE q.q = "frame" -> IF In(q.f, Len(F)) THEN Ok(F[q.f + 1]) ELSE OOR
+    [] q.q = "point" -> IF ~In(q.f, Len(F)) THEN OOR ELSE IF In(q.i, Len(F[q.f + 1].p)) THEN Ok(F[q.f + 1].p[q.i + 1]) ELSE OOR
+    [] q.q \in {"pointByName", "pointIdx"} ->
+         IF ~In(q.f, Len(F)) THEN OOR
+         ELSE LET k == NameIdx(PointNames(F[q.f + 1]), q.name) IN
+              IF k = 0 THEN INV ELSE IF q.q = "pointIdx" THEN Ok(k - 1) ELSE Ok(F[q.f + 1].p[k])
+    [] q.q = "subframe" -> IF ~In(q.f, Len(F)) THEN OOR ELSE IF In(q.s, Len(F[q.f + 1].a)) THEN Ok(F[q.f + 1].a[q.s + 1]) ELSE OOR
+    [] q.q = "channel" ->
+         IF ~In(q.f, Len(F)) THEN OOR ELSE IF ~In(q.s, Len(F[q.f + 1].a)) THEN OOR
+         ELSE IF In(q.i, Len(F[q.f + 1].a[q.s + 1])) THEN Ok(F[q.f + 1].a[q.s + 1][q.i + 1]) ELSE OOR
+    [] q.q \in {"channelByName", "channelIdx"} ->
+         IF ~In(q.f, Len(F)) THEN OOR ELSE IF ~In(q.s, Len(F[q.f + 1].a)) THEN OOR
+         ELSE LET sf == F[q.f + 1].a[q.s + 1]  k == NameIdx(ChannelNames(sf), q.name) IN
+              IF k = 0 THEN INV ELSE IF q.q = "channelIdx" THEN Ok(k - 1) ELSE Ok(sf[k])
+    [] q.q = "group" -> IF In(q.g, Len(o.grp)) THEN Ok(o.grp[q.g + 1]) ELSE OOR
+    [] q.q \in {"groupByName", "groupIdx"} ->
+         LET k == GroupIdx(o.grp, q.name) IN IF k = 0 THEN INV ELSE IF q.q = "groupIdx" THEN Ok(k - 1) ELSE Ok(o.grp[k])
+    [] q.q = "param" -> IF ~In(q.g, Len(o.grp)) THEN OOR ELSE IF In(q.i, Len(o.grp[q.g + 1].p)) THEN Ok(o.grp[q.g + 1].p[q.i + 1]) ELSE OOR
+    [] q.q \in {"paramByName", "paramIdx"} ->
+         IF ~In(q.g, Len(o.grp)) THEN OOR
+         ELSE LET k == ParamIdx(o.grp[q.g + 1], q.name) IN
+              IF k = 0 THEN INV ELSE IF q.q = "paramIdx" THEN Ok(k - 1) ELSE Ok(o.grp[q.g + 1].p[k])
+    [] q.q = "valuesAs" ->
+         LET p == o.grp[q.g + 1].p[q.i + 1]
+             want == CASE q.as = "byte" -> TBYTE [] q.as = "int" -> TINT [] q.as = "float" -> TFLOAT [] OTHER -> TCHAR IN
+         IF p.t = want THEN Ok(p.v) ELSE INV
+    [] q.q = "evt" -> IF In(q.i, 18) THEN Ok(o.hdr.evt[q.i + 1]) ELSE OOR
+    [] q.q = "evd" -> IF In(q.i, 9) THEN Ok(o.hdr.evd[q.i + 1]) ELSE OOR
+    [] q.q = "evl" -> IF In(q.i, 18) THEN Ok(o.hdr.evl[q.i + 1]) ELSE OOR
+\* name variants tried for a container: every present name, its upper-cased and space-padded variants, an absent name
+NameVariants(names) ==
+  LET S == SeqToSet(names) IN S \cup {Upper(n) : n \in S} \cup {n \o <<32>> : n \in S} \cup {<<122, 122>>}
+Queries(o) ==
+  LET F == o.frm  nf == Len(F)
+      fr(f) == F[f + 1]
+      goodF == IF nf > 0 THEN {0, nf - 1} ELSE {}
+      badF == {nf, -1}
+      Q(r) == [op |-> "Get", post |-> 0] @@ r IN
+  {Q([q |-> "frame", f |-> f]) : f \in Idxs(nf)}
+  \cup {Q([q |-> "point", f |-> f, i |-> i]) : f \in goodF, i \in Idxs(IF nf > 0 THEN Len(fr(0).p) ELSE 0)}
+  \cup {Q([q |-> "point", f |-> f, i |-> 0]) : f \in badF}
+  \cup UNION {{Q([q |-> qq, f |-> f, name |-> nm]) : nm \in NameVariants(PointNames(fr(f))), qq \in {"pointByName", "pointIdx"}} : f \in goodF}
+  \cup {Q([q |-> "pointByName", f |-> f, name |-> <<122, 122>>]) : f \in badF}
+  \cup UNION {{Q([q |-> "subframe", f |-> f, s |-> s]) : s \in Idxs(Len(fr(f).a))} : f \in goodF}
+  \cup UNION {{Q([q |-> "channel", f |-> f, s |-> s, i |-> i]) : s \in 0..(Len(fr(f).a) - 1), i \in Idxs(IF Len(fr(f).a) > 0 THEN Len(fr(f).a[1]) ELSE 0)} : f \in goodF}
+  \cup UNION {{Q([q |-> "channel", f |-> f, s |-> s, i |-> 0]) : s \in {Len(fr(f).a), -2}} : f \in goodF}
+  \cup UNION {UNION {{Q([q |-> qq, f |-> f, s |-> s, name |-> nm]) : nm \in NameVariants(ChannelNames(fr(f).a[s + 1])), qq \in {"channelByName", "channelIdx"}}
+                      : s \in 0..(Len(fr(f).a) - 1)} : f \in goodF}
+  \cup {Q([q |-> "group", g |-> g]) : g \in Idxs(Len(o.grp))}
+  \cup {Q([q |-> qq, name |-> nm]) : nm \in NameVariants([i \in 1..Len(o.grp) |-> o.grp[i].n]) \cup {<<112, 111, 105, 110, 116>>}, qq \in {"groupByName", "groupIdx"}}
+  \cup UNION {{Q([q |-> "param", g |-> g, i |-> i]) : i \in Idxs(Len(o.grp[g + 1].p))} : g \in 0..(Len(o.grp) - 1)}
+  \cup {Q([q |-> "param", g |-> g, i |-> 0]) : g \in {Len(o.grp), -1, -2}}
+  \cup UNION {{Q([q |-> qq, g |-> g, name |-> nm]) : nm \in NameVariants([i \in 1..Len(o.grp[g + 1].p) |-> o.grp[g + 1].p[i].n]), qq \in {"paramByName", "paramIdx"}} : g \in 0..(Len(o.grp) - 1)}
+  \cup UNION {{Q([q |-> "valuesAs", g |-> g, i |-> i, as |-> as]) : i \in 0..(Len(o.grp[g + 1].p) - 1), as \in {"byte", "int", "float", "string"}} : g \in 0..(Len(o.grp) - 1)}
+  \cup {Q([q |-> qq, i |-> i]) : qq \in {"evt", "evl"}, i \in {0, 17, 18, 19, -1, -2}}
+  \cup {Q([q |-> "evd", i |-> i]) : i \in {0, 8, 9, 10, -1, -2}}
+Get(q) ==
+  LET r == GetResult(obj, q) IN
+  /\ lastOp' = q /\ lastOut' = r.out /\ lastRes' = r.res /\ lastSets' = <<>> /\ hist' = hist
+  /\ UNCHANGED <<obj, callers, inScope>>
+
 (* ---------- the state machine ---------- *)
 Init ==
   /\ obj = DefaultObject
   /\ callers = [k \in CallerIds |-> EmptyFrame]
-  /\ hist = <<>> /\ lastOp = [op |-> "New"] /\ lastOut = "ok" /\ lastSets = <<>> /\ inScope = TRUE
+  /\ hist = <<>> /\ lastOp = [op |-> "New"] /\ lastOut = "ok" /\ lastSets = <<>> /\ lastRes = <<>> /\ inScope = TRUE
 
 PhaseDecl == ~Phased \/ (NF = 0 /\ \A k \in CallerIds : callers[k] = EmptyFrame)
 ShapeReady == ~Phased \/ (Len(PLabels) >= 1 /\ Len(ALabels) >= 1 /\ ~FIsZero(Val1(G, sPOINT, sRATE)) /\ ~FIsZero(Val1(G, sANALOG, sRATE)))
@@ -308,6 +390,7 @@ Next ==
   \/ \E k \in CallerIds, t \in Tags : CallerMutate(k, t)
   \/ \E k \in CallerIds, i \in IdxRange : AddCallerFrame(k, i)
   \/ \E f \in 1..MaxFrames, t \in Tags : CallerIds # {} /\ EditStored(f, t)
+  \/ Lookups /\ \E q \in Queries(obj) : Get(q)
 
 Spec == Init /\ [][Next]_vars
 
@@ -322,7 +405,7 @@ RefusedUnchanged == [][lastOut' # "ok" => obj' = obj]_vars
 FrameStoreOK ==
   [][ (lastOp'.op = "AddFrame" /\ lastOut' = "ok") =>
         LET idx == lastOp'.idx  n == Len(obj.frm)
-            f == IF "c" \in DOMAIN lastOp' THEN callers[lastOp'.c] ELSE lastOp'.frame IN
+            f == IF "c" \in DOMAIN lastOp' THEN callers[lastOp'.c] ELSE NormFrame(lastOp'.frame) IN
         IF idx = -1 THEN obj'.frm = Append(obj.frm, f)
         ELSE IF idx < n THEN obj'.frm = [obj.frm EXCEPT ![idx + 1] = f]
         ELSE /\ Len(obj'.frm) = idx + 1 /\ obj'.frm[idx + 1] = f
@@ -343,6 +426,27 @@ ConformingAccepted ==
   LET f == FrameOfKind("conf", 1)
       ratesOK == (Len(f.p) > 0 => ~FIsZero(Val1(G, sPOINT, sRATE))) /\ (Len(f.a) > 0 => ~FIsZero(Val1(G, sANALOG, sRATE)))
   IN ratesOK => FrameOutcome(f) = "ok"
+\* C11: by-name and positional look-up of the same element agree (checked on every reachable state)
+LookupConsistent ==
+  \A q \in Queries(obj) :
+     LET r == GetResult(obj, q) IN
+     /\ (q.q = "pointByName" /\ r.out = "ok" =>
+           LET k == GetResult(obj, [q EXCEPT !.q = "pointIdx"]) IN
+           k.out = "ok" /\ GetResult(obj, [q |-> "point", f |-> q.f, i |-> k.res]).res = r.res /\ r.res.n = q.name)
+     /\ (q.q = "channelByName" /\ r.out = "ok" =>
+           LET k == GetResult(obj, [q EXCEPT !.q = "channelIdx"]) IN
+           k.out = "ok" /\ GetResult(obj, [q |-> "channel", f |-> q.f, s |-> q.s, i |-> k.res]).res = r.res /\ r.res.n = q.name)
+     /\ (q.q = "groupByName" /\ r.out = "ok" => GetResult(obj, [q |-> "group", g |-> GetResult(obj, [q EXCEPT !.q = "groupIdx"]).res]).res = r.res)
+     /\ (q.q = "paramByName" /\ r.out = "ok" => GetResult(obj, [q |-> "param", g |-> q.g, i |-> GetResult(obj, [q EXCEPT !.q = "paramIdx"]).res]).res = r.res)
+     /\ (q.q \in {"frame", "point", "subframe", "channel", "group", "param", "evt", "evd", "evl"} =>
+           r.out \in {"ok", "out_of_range"})
+     /\ (q.q \in {"pointIdx", "channelIdx", "groupByName", "groupIdx", "paramByName", "paramIdx"} /\ r.out # "ok" => r.out \in {"invalid_argument", "out_of_range"})
+\* stored names never carry trailing spaces
+NamesTrimmed ==
+  /\ \A i \in 1..Len(obj.frm) : \A j \in 1..Len(obj.frm[i].p) : TrimRight(obj.frm[i].p[j].n) = obj.frm[i].p[j].n
+  /\ \A i \in 1..Len(obj.frm) : \A s \in 1..Len(obj.frm[i].a) : \A c \in 1..Len(obj.frm[i].a[s]) : TrimRight(obj.frm[i].a[s][c].n) = obj.frm[i].a[s][c].n
+  /\ \A i \in 1..Len(PLabels) : TrimRight(PLabels[i]) = PLabels[i]
+  /\ \A i \in 1..Len(ALabels) : TrimRight(ALabels[i]) = ALabels[i]
 AgreementInv == Agreement(obj)
 AgreePointsInv == inScope => AgreePoints(obj)
 AgreeFramesInv == AgreeFrames(obj)
